@@ -145,7 +145,7 @@ def threeViews (d : Disk) : String :=
 
 def step (st0 : St) (ts : List String) : St × String :=
   -- every operation that is not an operation *on the open session* closes the session first
-  let sessionOps := ["w", "sb", "ss", "sc", "si", "r", "rl", "end", "seek", "pos"]
+  let sessionOps := ["w", "sb", "ss", "sc", "si", "r", "rl", "rlc", "end", "seek", "pos"]
   let st : St := match ts with
     | op :: _ => if sessionOps.contains op then st0 else { st0 with sess := none }
     | [] => st0
@@ -202,6 +202,13 @@ def step (st0 : St) (ts : List String) : St × String :=
       if hasNul h.all then (st, "err nul") else
       let r := readLine readLineChunk h.rs
       ({ st with sess := some { h with rs := r.2 } }, s!"{b01 r.1.2} {showBytes r.1.1} {b01 r.2.eof}")
+  | ["rlc", b] => match unhex b with
+    | some [delim] => readSess st fun h =>
+      if !h.isText then (st, "err kind") else
+      if hasNul h.all then (st, "err nul") else
+      let r := readLineDelim delim h.rs
+      ({ st with sess := some { h with rs := r.2 } }, s!"{showBytes r.1} {b01 r.2.eof}")
+    | _ => (st, "bad-op")
   | ["end"] => readSess st fun h => (st, b01 h.rs.eof)
   | ["seek", k] => match k.toNat? with
     | some k => readSess st fun h => ({ st with sess := some (hseek h (k % (h.all.length + 1))) }, "ok")
